@@ -138,30 +138,33 @@ func checkC19(w *World, r *Report) {
 		sym := NewSym(w)
 		why := ""
 		n := 0
-		for _, b := range f.Blocks {
-			for _, in := range b.Instrs {
-				c, ok := in.(*ssa.Call)
-				if !ok || c.Call.StaticCallee() == nil {
-					continue
-				}
-				switch c.Call.StaticCallee().String() {
-				case "(encoding/json.Number).Int64":
-					n++
-					why = "the number is read through Int64, which fails from 2^63 on"
-				case "(encoding/json.Number).Float64":
-					n++
-					has := false
-					msg := pcImplies(sym.PathCond(f.Blocks[0], b, nil), func(a *pcAtom) string {
-						if cc, ok := a.v.(*ssa.Call); ok && cc.Call.StaticCallee() != nil && cc.Call.StaticCallee().String() == "strings.ContainsAny" {
-							if k, isK := cc.Call.Args[1].(*ssa.Const); isK && k.Value != nil && constant.StringVal(k.Value) == ".eE" {
-								has = true
-								return "fractional"
+		top := f
+		for _, f := range bodiesDeep(top, 2) { // the number arm may live in a helper of its own
+			for _, b := range f.Blocks {
+				for _, in := range b.Instrs {
+					c, ok := in.(*ssa.Call)
+					if !ok || c.Call.StaticCallee() == nil {
+						continue
+					}
+					switch c.Call.StaticCallee().String() {
+					case "(encoding/json.Number).Int64":
+						n++
+						why = "the number is read through Int64, which fails from 2^63 on"
+					case "(encoding/json.Number).Float64":
+						n++
+						has := false
+						msg := pcImplies(sym.PathCond(f.Blocks[0], b, nil), func(a *pcAtom) string {
+							if cc, ok := a.v.(*ssa.Call); ok && cc.Call.StaticCallee() != nil && cc.Call.StaticCallee().String() == "strings.ContainsAny" {
+								if k, isK := cc.Call.Args[1].(*ssa.Const); isK && k.Value != nil && constant.StringVal(k.Value) == ".eE" {
+									has = true
+									return "fractional"
+								}
 							}
+							return ""
+						}, func(env map[string]bool) bool { return env["fractional"] })
+						if !has || msg != "" {
+							why = "the binary floating-point reading is used for texts that are plain integers"
 						}
-						return ""
-					}, func(env map[string]bool) bool { return env["fractional"] })
-					if !has || msg != "" {
-						why = "the binary floating-point reading is used for texts that are plain integers"
 					}
 				}
 			}
